@@ -296,6 +296,18 @@ func runReceipts(r *core.Run) {
 				kvs = append(kvs, kv{k, spell, v})
 			}
 		}
+		if flavour == 0 && r.Cfg.Index%10 == 3 {
+			// a NUL octet is a character like any other between a colon and the next space (SMPP carries the text as octets)
+			for j := range kvs {
+				if kvs[j].key != "id" && len(kvs[j].val) >= 3 && utf8.ValidString(kvs[j].val) {
+					b := []byte(kvs[j].val)
+					b[len(b)/2] = 0
+					kvs[j].val = string(b)
+					r.Probe("nul_inside_a_receipt_value")
+					break
+				}
+			}
+		}
 		// the receipt must fit the one-octet length field of the deliver PDU: shrink over-long values
 		total := func() int {
 			n := 0
